@@ -45,6 +45,7 @@ struct Env {
     std::vector<int> menu_writes;     // how many device pwrites happened (for enumeration)
 };
 static Env ENV;
+static bool g_sparse_writes = false;
 static void env_err(const std::string& e) { if (ENV.err.empty()) ENV.err = e; }
 
 extern "C" int open(const char* path, int flags, ...)
@@ -90,6 +91,13 @@ extern "C" ssize_t pwrite(int fd, const void* buf, size_t n, off_t off)
         ++ENV.failed_writes;
         errno = EBADF;
         return -1;
+    }
+    if (g_sparse_writes && n > (1u << 20)) {
+        // large-file scenarios: only the first and last 64 KiB of a large write reach the (sparse) file
+        const size_t e = 64 * 1024;
+        if (syscall(SYS_pwrite64, fd, buf, e, off) != (ssize_t)e) return -1;
+        if (syscall(SYS_pwrite64, fd, (const char*)buf + n - e, e, off + (off_t)(n - e)) != (ssize_t)e) return -1;
+        return (ssize_t)n;
     }
     int kind = k < (int)ENV.write_plan.size() ? ENV.write_plan[k] : W_FULL;
     if (ENV.persistent_from >= 0 && k >= ENV.persistent_from) kind = W_EIO;
